@@ -24,7 +24,7 @@ import (
 // the workers are awaited through hook H6.
 
 type hyStep struct {
-	Op  string `json:"op"` // set | get | del | overflow | adv | advq | settle | slowget | slowdel
+	Op  string `json:"op"` // set | get | del | overflow | adv | advq | settle | slowget | slowdel | slowprom | queuedel | queuereset
 	K   int    `json:"k,omitempty"`
 	TTL int64  `json:"ttl,omitempty"`
 	N   int    `json:"n,omitempty"`
@@ -615,6 +615,74 @@ func execHybrid(c hyCase, x *verifkit.Ctx, c15 bool) (fail *verifkit.Failure) {
 			if f := settle(); f != nil {
 				return f
 			}
+		case "queuereset":
+			// as queuedel, but every key deleted while its entry waits in the hand-off queue is stored again at
+			// once with a new value and a TTL: the worker then finds the KEY in the map, but not the entry it was
+			// handed; what it was handed is the deleted value and must not reach the secondary tier. The new
+			// values then expire, so that a Get has to go to the secondary tier.
+			if f := settle(); f != nil {
+				return f
+			}
+			sec.slowAll.Store(true)
+			type qr struct{ k, old int }
+			var qs []qr
+			for j := 0; j < c.MaxSize+c.Workers+4; j++ {
+				fresh++
+				seq++
+				if store.Set(fresh, seq, 1, 0) {
+					model[fresh] = &hyModel{val: seq}
+					qs = append(qs, qr{fresh, seq})
+				}
+			}
+			store.Wait()
+			const qrTTL = int64(2_000_000_000)
+			for _, q := range qs {
+				if err := doDelete(q.k, false); err != nil {
+					model[q.k] = &hyModel{unknown: true}
+					continue
+				}
+				seq++
+				if store.Set(q.k, seq, 1, time.Duration(qrTTL)) {
+					model[q.k] = &hyModel{val: seq, deadline: now() + qrTTL}
+				} else {
+					model[q.k] = &hyModel{deleted: true}
+				}
+			}
+			sec.slowAll.Store(false)
+			x.Class("delete-and-rewrite-of-keys-queued-for-demotion")
+			if f := settle(); f != nil {
+				return f
+			}
+			vkAdvance(qrTTL + 1_000_000_000)
+			if f := tc.tick(); f != nil {
+				return f
+			}
+			lastTick = now()
+			for _, q := range qs {
+				if m := model[q.k]; m == nil || m.unknown {
+					continue
+				}
+				var v int
+				var ok bool
+				calls := loaderCalls
+				if c.Loading {
+					v, _ = ls.Get(context.Background(), q.k)
+					ok = loaderCalls == calls
+					if !ok {
+						model[q.k] = &hyModel{val: v, loader: true}
+					}
+				} else {
+					v, ok, _ = store.GetWithSecodary(q.k)
+				}
+				if ok && v == q.old {
+					return failf("stale/deleted/rewritten-while-queued-for-demotion", "key %d: value %d was stored, evicted and queued for demotion, deleted (Delete returned) and stored again with value %d and a TTL; after that TTL Get(%d) returns the deleted value %d from the secondary tier", q.k, q.old, model[q.k].val, q.k, q.old)
+				}
+				if ok {
+					if _, f := read(q.k); f != nil {
+						return f
+					}
+				}
+			}
 		case "slowprom":
 			// a slow (4 ms) secondary Get during the promotion of key K, and a Delete (N == 0) or Set
 			// (N == 1) of exactly that key issued by a watcher while the promotion is inside it
@@ -936,6 +1004,9 @@ func genHybrid(c15 bool) func(t *rapid.T) hyCase {
 					case 1:
 						return hyStep{Op: "slowget"}
 					case 2:
+						if rapid.Bool().Draw(t, "reset") {
+							return hyStep{Op: "queuereset"}
+						}
 						return hyStep{Op: "queuedel"}
 					}
 				}
